@@ -33,6 +33,24 @@ func (a *vfRows) equal(b *vfRows) bool {
 	return reflect.DeepEqual(a.Profiles, b.Profiles) && reflect.DeepEqual(a.Signed, b.Signed)
 }
 
+// equalProtected ignores the password-hash cache records (type 1): evicting one when the directory rejects a
+// password is the designed reaction to a wrong guess, not a protected effect
+func (a *vfRows) equalProtected(b *vfRows) bool {
+	if !reflect.DeepEqual(a.Profiles, b.Profiles) {
+		return false
+	}
+	strip := func(m map[string]string) map[string]string {
+		o := map[string]string{}
+		for k, v := range m {
+			if !strings.HasSuffix(k, "/1") {
+				o[k] = v
+			}
+		}
+		return o
+	}
+	return reflect.DeepEqual(strip(a.Signed), strip(b.Signed))
+}
+
 func (a *vfRows) String() string {
 	var p, s []string
 	for k, v := range a.Profiles {
